@@ -34,3 +34,13 @@ claim("C07", "proof",
       "Every address that selects exactly one device reaches that device and no other (reads and writes, both machines, mouse/joystick/extender on or off); extender discipline; ULA read row AND / EAR bit and ULA write bit fields.",
       "Addresses where the statement does not single out one device (several cubes overlap, or the mouse outside xxDF-style addresses) are not compared. The floating-bus byte value is not decided.",
       "DESIGN.md §3 C07, Appendix A.2")
+claim("C08", "other",
+      "term equivalence of the address-decode functions; path-sensitive interpretation of the render loop body for a symbolic block; must-pass-through (CFG) pairing of every RAM mutation with a shadow-screen update; constant tables",
+      "Address decode, attribute fields, ink/paper/flash selection, pixel bit and position in the render loop, update() ranges and indices, flash period, buffer swap, bank table, and shadow coherence of every RAM mutator reachable from the API.",
+      "Not decided: the beam-relative clause (write before/after the beam appears this/next frame) - numeric relation of two counters.",
+      "DESIGN.md §3 C08")
+claim("C09", "other",
+      "mod-ref on border_color; constant tables; extracted closed form of next_border_pixel tabulated against the documented beam position for every T; path post-conditions of set_border/new_frame; loop-body interpretation of fill_to",
+      "Writers and bit provenance of the reported colour, the beam->pixel map within 16 px for every clock of the frame on both machines, painting of [last change, beam) with the old colour, whole-border repaint when nothing changed, per-frame flag reset.",
+      "The repaint after an SZX load that stores the border directly is judged under C14.",
+      "DESIGN.md §3 C09")
